@@ -1,1 +1,1071 @@
-fn main() {}
+//! C25 — Source preserves text and tracks indentation.
+//!
+//! Random op sequences (`push_str`, `push_str_literal`, `indent`, `deindent`,
+//! `write!`, `append_src`) are executed against the real
+//! `wit_bindgen_core::Source`; the oracle below is written from the property
+//! statement (DESIGN.md "### C25") and never looks at source.rs:
+//!
+//!  (1) text preservation — stripping the leading whitespace of every line of the
+//!      buffer and of the concatenated input gives equal strings;
+//!  (2) indentation — every non-blank output line starts with 2·d spaces (exactly
+//!      2·d when the input line has no leading blanks of its own), d following the
+//!      nesting of braces judged on WHOLE lines: a line whose trimmed text starts
+//!      with `}` closes before it is indented, one that ends with `{` opens after
+//!      it, lines starting with `//` and literal lines do neither.  Judged only
+//!      while fragment boundaries have not separated a `}` / `//` / `{` token from
+//!      its line edge and braces have not underflowed; everything after the first
+//!      such line is outside reading (2) for that sequence;
+//!  (3) literal lines change neither depth nor comment state (falls out of (2):
+//!      lines after a literal `}` / `{` / `//` line are judged as if it were text);
+//!  (4) the depth observed at the end (via `set_indent`, restored immediately)
+//!      equals the oracle's depth, in particular brace-balanced code restores the
+//!      starting depth.
+//!
+//! `\r` is never generated.  `deindent(n)` is clamped to the current depth (an
+//! underflowing `deindent` is a usize underflow, outside the quantifier).
+//! `append_src` is used the way the generators use it: whole lines appended at a
+//! line start.
+use corelib_mon::{clip, fan_out, only_case};
+use serde_json::{json, Value};
+use std::fmt::Write as _;
+use vkit::{Args, Report, Rng};
+use wit_bindgen_core::Source;
+
+#[derive(Clone, Debug)]
+enum Op {
+    Push(String),
+    Lit(String),
+    Indent(usize),
+    Deindent(usize),
+    /// `write!` with one of a few fixed templates
+    Write(u8, Vec<String>),
+    /// ops run on a fresh Source which is then `append_src`ed
+    Append(Vec<Op>),
+}
+
+fn op_json(op: &Op) -> Value {
+    match op {
+        Op::Push(s) => json!({"push_str": s}),
+        Op::Lit(s) => json!({"push_str_literal": s}),
+        Op::Indent(n) => json!({"indent": n}),
+        Op::Deindent(n) => json!({"deindent_clamped": n}),
+        Op::Write(t, a) => json!({"write": TEMPLATES[*t as usize], "args": a}),
+        Op::Append(inner) => json!({"append_src": inner.iter().map(op_json).collect::<Vec<_>>()}),
+    }
+}
+
+const TEMPLATES: &[&str] = &["{}", "{}{}", "{} {{\n{}}}\n", "{}\n", "{}: {},\n", "// {}\n", "{} = {};", "{}{}{}"];
+
+/// What the Source was actually told, in order.
+#[derive(Clone, Debug)]
+enum Ev {
+    Frag { text: String, lit: bool, via: &'static str },
+    Manual(i64),
+    Append { text: String, inner: Vec<Ev> },
+}
+
+/// fmt::Write adapter: logs each `write_str` piece and forwards it to the real
+/// `<Source as fmt::Write>::write_str`.
+struct Tee<'a> {
+    src: &'a mut Source,
+    evs: &'a mut Vec<Ev>,
+}
+impl std::fmt::Write for Tee<'_> {
+    fn write_str(&mut self, s: &str) -> std::fmt::Result {
+        self.evs.push(Ev::Frag { text: s.to_string(), lit: false, via: "write" });
+        self.src.write_str(s)
+    }
+}
+
+fn probe_indent(src: &mut Source) -> usize {
+    let old = src.set_indent(0);
+    src.set_indent(old);
+    old
+}
+
+fn at_line_start(s: &str) -> bool {
+    s.is_empty() || s.ends_with('\n')
+}
+
+/// Execute `ops`; after every top-level event call `after(src, evs)`; stop when
+/// it returns false.
+fn exec(ops: &[Op], src: &mut Source, evs: &mut Vec<Ev>, after: &mut dyn FnMut(&Source, &[Ev]) -> bool) -> bool {
+    for op in ops {
+        match op {
+            Op::Push(s) => {
+                evs.push(Ev::Frag { text: s.clone(), lit: false, via: "push_str" });
+                src.push_str(s);
+            }
+            Op::Lit(s) => {
+                evs.push(Ev::Frag { text: s.clone(), lit: true, via: "push_str_literal" });
+                src.push_str_literal(s);
+            }
+            Op::Indent(n) => {
+                evs.push(Ev::Manual(*n as i64));
+                src.indent(*n);
+            }
+            Op::Deindent(n) => {
+                let n = (*n).min(probe_indent(src));
+                if n > 0 {
+                    evs.push(Ev::Manual(-(n as i64)));
+                    src.deindent(n);
+                }
+            }
+            Op::Write(t, a) => {
+                let g = |i: usize| a.get(i).map(|s| s.as_str()).unwrap_or("");
+                let mut tee = Tee { src, evs };
+                match t {
+                    0 => write!(tee, "{}", g(0)),
+                    1 => write!(tee, "{}{}", g(0), g(1)),
+                    2 => write!(tee, "{} {{\n{}}}\n", g(0), g(1)),
+                    3 => write!(tee, "{}\n", g(0)),
+                    4 => write!(tee, "{}: {},\n", g(0), g(1)),
+                    5 => write!(tee, "// {}\n", g(0)),
+                    6 => write!(tee, "{} = {};", g(0), g(1)),
+                    _ => write!(tee, "{}{}{}", g(0), g(1), g(2)),
+                }
+                .unwrap();
+            }
+            Op::Append(inner_ops) => {
+                // whole lines appended at a line start
+                if !at_line_start(src.as_str()) {
+                    evs.push(Ev::Frag { text: "\n".into(), lit: false, via: "push_str" });
+                    src.push_str("\n");
+                }
+                let mut inner = Source::default();
+                let mut ievs = vec![];
+                exec(inner_ops, &mut inner, &mut ievs, &mut |_, _| true);
+                if !at_line_start(inner.as_str()) {
+                    ievs.push(Ev::Frag { text: "\n".into(), lit: false, via: "push_str" });
+                    inner.push_str("\n");
+                }
+                src.append_src(&inner);
+                evs.push(Ev::Append { text: inner.as_str().to_string(), inner: ievs });
+            }
+        }
+        if !after(src, evs) {
+            return false;
+        }
+    }
+    true
+}
+
+// ---------------------------------------------------------------- oracle
+
+fn is_ws(c: char) -> bool {
+    c.is_whitespace()
+}
+fn trim(s: &str) -> &str {
+    s.trim_matches(is_ws)
+}
+/// remove the leading whitespace of every line
+fn strip_lines(s: &str) -> String {
+    let mut out = String::with_capacity(s.len());
+    for (i, l) in s.split('\n').enumerate() {
+        if i > 0 {
+            out.push('\n');
+        }
+        out.push_str(l.trim_start_matches(is_ws));
+    }
+    out
+}
+fn input_text(evs: &[Ev]) -> String {
+    let mut s = String::new();
+    for e in evs {
+        match e {
+            Ev::Frag { text, .. } | Ev::Append { text, .. } => s.push_str(text),
+            Ev::Manual(_) => {}
+        }
+    }
+    s
+}
+/// The lines a fragment contributes: split on '\n'; a final '\n' terminates the
+/// last piece instead of opening an empty one.  Returns (piece, ends_line).
+fn pieces(text: &str) -> Vec<(&str, bool)> {
+    if text.is_empty() {
+        return vec![];
+    }
+    let mut v: Vec<&str> = text.split('\n').collect();
+    let terminated = text.ends_with('\n');
+    if terminated {
+        v.pop();
+    }
+    let n = v.len();
+    v.into_iter().enumerate().map(|(i, p)| (p, i + 1 < n || terminated)).collect()
+}
+
+struct Piece {
+    text: String,
+    lit: bool,
+}
+
+#[derive(Default)]
+struct LineStats {
+    judged_lines: u64,
+    exact_lines: u64,
+    literal_edge_lines_followed: u64,
+    closes: u64,
+    opens: u64,
+    comment_lines: u64,
+    manual: u64,
+    stop_reason: Option<&'static str>,
+}
+
+struct Judge<'a> {
+    out_lines: Vec<&'a str>,
+    line_no: usize,
+    d: i64,
+    cur: Vec<Piece>,
+    line_start_d: i64,
+    judging: bool,
+    pending_literal_edge: u64,
+    saw_literal_edge: bool,
+    stats: LineStats,
+    /// (signature suffix, message)
+    bad: Option<(String, String)>,
+}
+
+impl<'a> Judge<'a> {
+    fn stop(&mut self, why: &'static str) {
+        if self.judging {
+            self.judging = false;
+            self.stats.stop_reason = Some(why);
+        }
+    }
+    fn feed(&mut self, evs: &[Ev]) {
+        for e in evs {
+            if self.bad.is_some() {
+                return;
+            }
+            match e {
+                Ev::Manual(n) => {
+                    // (may be transiently negative while a line that opens a brace is still unfinished)
+                    self.d += n;
+                    self.stats.manual += 1;
+                    if self.d < 0 && self.cur.is_empty() {
+                        self.stop("oracle depth negative after deindent");
+                    }
+                }
+                Ev::Frag { text, lit, .. } => {
+                    for (p, ends) in pieces(text) {
+                        if self.cur.is_empty() {
+                            self.line_start_d = self.d;
+                        }
+                        self.cur.push(Piece { text: p.to_string(), lit: *lit });
+                        if ends {
+                            self.finish_line();
+                        }
+                    }
+                }
+                Ev::Append { text, inner } => {
+                    if self.judging && self.cur.is_empty() && self.d == 0 {
+                        // appended at depth 0 at a line start: same as running the inner ops here
+                        self.feed(inner);
+                    } else {
+                        self.stop("append_src at non-zero depth (relative indentation, outside reading (2))");
+                        // keep line numbering in step
+                        self.line_no += text.matches('\n').count();
+                    }
+                }
+            }
+        }
+    }
+
+    fn finish_line(&mut self) {
+        let ps = std::mem::take(&mut self.cur);
+        let ln = self.line_no;
+        self.line_no += 1;
+        if !self.judging {
+            return;
+        }
+        let text: String = ps.iter().map(|p| p.text.as_str()).collect();
+        let t = trim(&text);
+        if t.is_empty() {
+            return; // blank line: no claim, no effect
+        }
+        let nonblank: Vec<usize> = (0..ps.len()).filter(|i| !trim(&ps[*i].text).is_empty()).collect();
+        let first = nonblank[0];
+        let last = *nonblank.last().unwrap();
+        let all_lit = nonblank.iter().all(|i| ps[*i].lit);
+        let edge = |s: &str| s.starts_with('}') || s.starts_with("//") || s.ends_with('{');
+        let (mut close, mut open) = (false, false);
+        let kind;
+        if all_lit {
+            kind = "literal";
+            if edge(t) {
+                self.pending_literal_edge += 1;
+                self.saw_literal_edge = true;
+            }
+        } else if t.starts_with("//") {
+            let f = &ps[first];
+            if f.lit || !trim(&f.text).starts_with("//") {
+                return self.stop("`//` at a line start split across fragments or mixed with literal text");
+            }
+            kind = "comment";
+            self.stats.comment_lines += 1;
+        } else {
+            for &i in &nonblank {
+                let pt = trim(&ps[i].text);
+                if ps[i].lit {
+                    if edge(pt) {
+                        return self.stop("literal piece with an edge token inside a mixed line");
+                    }
+                } else {
+                    if (pt.starts_with('}') || pt.starts_with("//")) && i != first {
+                        return self.stop("fragment boundary puts `}` or `//` at a fragment start inside a line");
+                    }
+                    if pt.ends_with('{') && i != last {
+                        return self.stop("fragment boundary puts `{` at a fragment end inside a line");
+                    }
+                }
+            }
+            close = t.starts_with('}');
+            open = t.ends_with('{');
+            kind = match (close, open) {
+                (true, true) => "close-open",
+                (true, false) => "close",
+                (false, true) => "open",
+                _ => "plain",
+            };
+        }
+        let mut e = self.line_start_d;
+        if close {
+            if self.line_start_d <= 0 || self.d <= 0 {
+                return self.stop("unbalanced `}` (depth would go below zero)");
+            }
+            e -= 1;
+        }
+        let out = self.out_lines.get(ln).copied().unwrap_or("");
+        let lead: String = out.chars().take_while(|c| is_ws(*c)).collect();
+        let want = " ".repeat(2 * e as usize);
+        let exact = !text.starts_with(is_ws);
+        let ok = if exact { lead == want } else { lead.starts_with(&want) };
+        if !ok {
+            let after_lit = if self.saw_literal_edge { ":after-literal-edge-line" } else { "" };
+            self.bad = Some((
+                format!("source:indentation:{kind}-line{after_lit}"),
+                format!(
+                    "output line {ln} {:?} starts with {} blank(s) but brace nesting of the whole lines before it gives depth {e} ⇒ {} {} spaces (input line {:?})",
+                    clip(out, 60),
+                    lead.chars().count(),
+                    if exact { "exactly" } else { "at least" },
+                    2 * e,
+                    clip(&text, 60)
+                ),
+            ));
+            return;
+        }
+        self.stats.judged_lines += 1;
+        if exact {
+            self.stats.exact_lines += 1;
+        }
+        if kind != "literal" && self.pending_literal_edge > 0 {
+            self.stats.literal_edge_lines_followed += self.pending_literal_edge;
+            self.pending_literal_edge = 0;
+        }
+        if close {
+            self.d -= 1;
+            self.stats.closes += 1;
+        }
+        if open {
+            self.d += 1;
+            self.stats.opens += 1;
+        }
+        if self.d < 0 {
+            self.stop("oracle depth negative after deindent");
+        }
+    }
+}
+
+/// Which op made reading (1) fail, classified from the INPUT only.
+fn classify_text_failure(before: &str, ev: &Ev) -> String {
+    let last_line = before.rsplit('\n').next().unwrap_or("");
+    let mid_line = !trim(last_line).is_empty();
+    match ev {
+        Ev::Frag { text, lit, via } => {
+            let ps = pieces(text);
+            let multi = ps.len() > 1;
+            let first = ps.first().map(|p| p.0).unwrap_or("");
+            if multi && mid_line && first.starts_with(is_ws) {
+                return "source:multiline-continuation-trims-interior-whitespace".into();
+            }
+            if !*lit && mid_line && trim(first).starts_with('}') && before.ends_with("  ") {
+                return "source:close-brace-continuation-pops-interior-whitespace".into();
+            }
+            format!("source:text-not-preserved:{via}:{}", if multi { "multi-line" } else { "single-line" })
+        }
+        Ev::Append { .. } => "source:text-not-preserved:append_src".into(),
+        Ev::Manual(_) => "source:text-not-preserved:indent-op".into(),
+    }
+}
+
+fn first_diff(a: &str, b: &str) -> String {
+    let (ac, bc): (Vec<char>, Vec<char>) = (a.chars().collect(), b.chars().collect());
+    let mut i = 0;
+    while i < ac.len() && i < bc.len() && ac[i] == bc[i] {
+        i += 1;
+    }
+    let lo = i.saturating_sub(12);
+    let sa: String = ac[lo..(i + 12).min(ac.len())].iter().collect();
+    let sb: String = bc[lo..(i + 12).min(bc.len())].iter().collect();
+    format!("…{sa:?} (buffer) vs …{sb:?} (input), both with line-leading blanks removed")
+}
+
+// ---------------------------------------------------------------- generators
+
+const WORDS: &[&str] = &["x", "foo", "let y", "bar(a, b)", "a  b", "ret", "T::new()", "f(", ");", "x =", "= 1;", ",", "a { b } c", "}{", "{}"];
+
+fn pick_str(rng: &mut Rng, xs: &[&'static str]) -> &'static str {
+    xs[rng.usize(xs.len())]
+}
+
+fn plain_line(rng: &mut Rng) -> String {
+    let n = rng.range(1, 3);
+    let mut s = String::new();
+    for i in 0..n {
+        if i > 0 {
+            s.push_str(pick_str(rng, &[" ", "  ", ""]));
+        }
+        s.push_str(pick_str(rng, WORDS));
+    }
+    // a plain line must not start with `}`/`//` or end with `{`
+    let t = trim(&s).to_string();
+    if t.starts_with('}') || t.starts_with("//") || t.ends_with('{') || t.is_empty() {
+        return "stmt;".into();
+    }
+    if rng.chance(1, 10) {
+        s.push_str(pick_str(rng, &[" ", "  "]));
+    }
+    s
+}
+
+struct Emitter<'r> {
+    rng: &'r mut Rng,
+    ops: Vec<Op>,
+    pending: String,
+    pending_lit: bool,
+    /// probability (per mille) of cutting fragments at arbitrary characters
+    wild_cut: u64,
+}
+
+impl Emitter<'_> {
+    fn line(&mut self, text: &str, lit: bool) {
+        if !self.pending.is_empty() && (self.pending_lit != lit || self.rng.chance(2, 3)) {
+            self.flush();
+        }
+        let own = if self.rng.chance(1, 8) { pick_str(self.rng, &["  ", " ", "\t", "    ", "\u{a0}"]) } else { "" };
+        self.pending_lit = lit;
+        self.pending.push_str(own);
+        self.pending.push_str(text);
+        self.pending.push('\n');
+        if self.rng.chance(1, 2) {
+            self.flush();
+        }
+    }
+    fn frag(&mut self, s: String, lit: bool) {
+        if lit {
+            self.ops.push(Op::Lit(s));
+        } else if self.rng.chance(1, 4) {
+            self.ops.push(Op::Write(0, vec![s]));
+        } else {
+            self.ops.push(Op::Push(s));
+        }
+    }
+    fn flush(&mut self) {
+        if self.pending.is_empty() {
+            return;
+        }
+        let s = std::mem::take(&mut self.pending);
+        let lit = self.pending_lit;
+        let roll = self.rng.below(1000);
+        if roll < self.wild_cut {
+            // cut at 1..3 arbitrary character positions
+            let cs: Vec<char> = s.chars().collect();
+            let k = self.rng.range(1, 3);
+            let mut cuts: Vec<usize> = (0..k).map(|_| self.rng.usize(cs.len() + 1)).collect();
+            cuts.sort();
+            let mut prev = 0;
+            for c in cuts.into_iter().chain([cs.len()]) {
+                let part: String = cs[prev..c].iter().collect();
+                prev = c;
+                if !part.is_empty() || self.rng.chance(1, 4) {
+                    self.frag(part, lit);
+                }
+            }
+            return;
+        }
+        match self.rng.below(10) {
+            0..=4 => self.frag(s, lit),
+            5 | 6 => {
+                // body and the final newline separately
+                let body = s[..s.len() - 1].to_string();
+                self.frag(body, lit);
+                let l2 = lit && self.rng.chance(1, 2);
+                self.frag("\n".into(), l2);
+            }
+            7 => {
+                // cut at a line boundary
+                let idxs: Vec<usize> = s.match_indices('\n').map(|(i, _)| i + 1).collect();
+                let c = *self.rng.pick(&idxs);
+                let (a, b) = s.split_at(c);
+                self.frag(a.to_string(), lit);
+                if !b.is_empty() {
+                    self.frag(b.to_string(), lit);
+                }
+            }
+            8 if !lit => {
+                // write!("{}\n") for a single line, else write!("{}{}") cut at a line boundary
+                if s.matches('\n').count() == 1 {
+                    self.ops.push(Op::Write(3, vec![s[..s.len() - 1].to_string()]));
+                } else {
+                    let c = s.find('\n').unwrap() + 1;
+                    let (a, b) = s.split_at(c);
+                    self.ops.push(Op::Write(1, vec![a.to_string(), b.to_string()]));
+                }
+            }
+            _ => {
+                // cut at a blank inside the text (never next to the line edge tokens)
+                let cs: Vec<(usize, char)> = s.char_indices().collect();
+                let cands: Vec<usize> = cs.iter().filter(|(_, c)| *c == ' ').map(|(i, _)| *i).collect();
+                if cands.is_empty() {
+                    self.frag(s, lit);
+                } else {
+                    let c = *self.rng.pick(&cands);
+                    let (a, b) = s.split_at(c);
+                    self.frag(a.to_string(), lit);
+                    self.frag(b.to_string(), lit);
+                }
+            }
+        }
+    }
+
+    fn stmts(&mut self, depth: usize, budget: &mut i64, top: bool) {
+        let n = self.rng.range(1, 4);
+        for _ in 0..n {
+            if *budget <= 0 {
+                return;
+            }
+            *budget -= 1;
+            match self.rng.below(20) {
+                0..=5 => {
+                    let l = plain_line(self.rng);
+                    self.line(&l, false);
+                }
+                6..=9 if depth < 4 => {
+                    let hdr = pick_str(self.rng, &["if c {", "fn f() {", "{", "match x {", "impl T {", "a => {", "x = S {"]);
+                    self.line(hdr, false);
+                    self.stmts(depth + 1, budget, false);
+                    let mut k = 0;
+                    while self.rng.chance(1, 4) && k < 2 {
+                        let l = pick_str(self.rng, &["} else {", "} else if d {", "}{"]);
+                        self.line(l, false);
+                        self.stmts(depth + 1, budget, false);
+                        k += 1;
+                    }
+                    let l = pick_str(self.rng, &["}", "}", "};", "} // end {", "})"]);
+                    self.line(l, false);
+                }
+                10 | 11 => {
+                    let c = pick_str(self.rng, &["// note", "// open {", "// }", "//", "/// doc {", "// a { b", "//}{"]);
+                    self.line(c, false);
+                }
+                12 => self.line("", false),
+                13 | 14 => {
+                    let l = pick_str(self.rng, &["}", "{", "// lit", "text {", "} lit", "plain literal", "* item", "```", "}{", "// {"]);
+                    self.line(l, true);
+                }
+                15 => {
+                    // manual indentation around a region
+                    self.flush();
+                    let k = self.rng.range(1, 2);
+                    self.ops.push(Op::Indent(k));
+                    self.stmts(depth + 1, budget, false);
+                    self.flush();
+                    self.ops.push(Op::Deindent(k));
+                }
+                16 if top => {
+                    // append_src of a nested program (only at depth 0)
+                    self.flush();
+                    let wc = self.wild_cut;
+                    let mut inner = Emitter { rng: &mut *self.rng, ops: vec![], pending: String::new(), pending_lit: false, wild_cut: wc };
+                    let mut b = 6;
+                    inner.stmts(0, &mut b, false);
+                    inner.flush();
+                    let ops = inner.ops;
+                    self.ops.push(Op::Append(ops));
+                }
+                17 => {
+                    // block through a write! template: "{hdr} {{\n{body}}}\n"
+                    self.flush();
+                    let mut inner = Emitter { rng: &mut *self.rng, ops: vec![], pending: String::new(), pending_lit: false, wild_cut: 0 };
+                    let mut b = 3;
+                    inner.stmts(depth + 1, &mut b, false);
+                    inner.flush();
+                    let body: String = inner
+                        .ops
+                        .iter()
+                        .filter_map(|o| match o {
+                            Op::Push(s) => Some(s.clone()),
+                            Op::Write(0, a) => Some(a[0].clone()),
+                            _ => None,
+                        })
+                        .collect();
+                    let body = if body.ends_with('\n') { body } else { format!("{body}\n") };
+                    // keep the body brace-balanced on whole lines: use only its plain lines
+                    let body: String = body
+                        .split_inclusive('\n')
+                        .filter(|l| {
+                            let t = trim(l);
+                            !(t.starts_with('}') || t.ends_with('{'))
+                        })
+                        .collect();
+                    self.ops.push(Op::Write(2, vec!["while go".into(), body]));
+                }
+                18 => {
+                    // unbalanced code: stray close or missing close
+                    if self.rng.chance(1, 2) {
+                        self.line("}", false);
+                    } else {
+                        self.line("open {", false);
+                    }
+                }
+                _ => {
+                    let l = plain_line(self.rng);
+                    let k = *self.rng.pick(&[4u8, 5, 6]);
+                    self.flush();
+                    match k {
+                        4 => self.ops.push(Op::Write(4, vec!["field".into(), l])),
+                        5 => self.ops.push(Op::Write(5, vec![l])),
+                        _ => {
+                            self.ops.push(Op::Write(6, vec!["v".into(), l]));
+                            self.ops.push(Op::Push("\n".into()));
+                        }
+                    }
+                }
+            }
+        }
+    }
+}
+
+fn gen_program(rng: &mut Rng, wild_cut: u64) -> Vec<Op> {
+    let mut e = Emitter { rng, ops: vec![], pending: String::new(), pending_lit: false, wild_cut };
+    let mut budget = e.rng.range(3, 14) as i64;
+    while budget > 0 {
+        e.stmts(0, &mut budget, true);
+    }
+    e.flush();
+    e.ops
+}
+
+const TOKENS: &[&str] = &[
+    "x", "y", "foo", "bar(", "a,", ")", ";", "=", "{", "}", "{", "}", "//", "/", "/*", " ", "  ", "   ", "\t", "\n", "\n", "\n", "} else {", "// c",
+    "{}", "\u{a0}", " f(", "x =", "\n\n", "}\n", "{\n", " {\n",
+];
+
+fn wild_frag(rng: &mut Rng) -> String {
+    let n = rng.range(0, 6);
+    (0..n).map(|_| *rng.pick(TOKENS)).collect()
+}
+
+fn gen_wild(rng: &mut Rng, allow_append: bool) -> Vec<Op> {
+    let n = rng.range(1, 14);
+    let mut ops = vec![];
+    for _ in 0..n {
+        match rng.below(20) {
+            0..=10 => ops.push(Op::Push(wild_frag(rng))),
+            11..=13 => ops.push(Op::Lit(wild_frag(rng))),
+            14 | 15 => {
+                let t = *rng.pick(&[1u8, 1, 2, 4, 6, 7]);
+                ops.push(Op::Write(t, vec![wild_frag(rng), wild_frag(rng), wild_frag(rng)]));
+            }
+            16 => ops.push(Op::Indent(rng.range(1, 2))),
+            17 => ops.push(Op::Deindent(rng.range(1, 2))),
+            18 if allow_append => ops.push(Op::Append(gen_wild(rng, false))),
+            _ => ops.push(Op::Push(format!("{}\n", wild_frag(rng).replace('\n', "")))),
+        }
+    }
+    ops
+}
+
+/// Literal parts (`Some`) and argument slots (`None`) of a write! template.
+fn template_parts(t: u8) -> Vec<Option<String>> {
+    let mut v = vec![];
+    let mut rest = TEMPLATES[t as usize];
+    while let Some(p) = rest.find("{}") {
+        let l = rest[..p].replace("{{", "{").replace("}}", "}");
+        if !l.is_empty() {
+            v.push(Some(l));
+        }
+        v.push(None);
+        rest = &rest[p + 2..];
+    }
+    let l = rest.replace("{{", "{").replace("}}", "}");
+    if !l.is_empty() {
+        v.push(Some(l));
+    }
+    v
+}
+
+fn mid_line(input: &str) -> bool {
+    !trim(input.rsplit('\n').next().unwrap_or("")).is_empty()
+}
+
+/// Rewrite a fragment so that it does not fall in one of the two known classes.
+fn fix_frag(s: String, input: &str, lit: bool) -> String {
+    let mut s = s;
+    if mid_line(input) {
+        let ps = pieces(&s);
+        if ps.len() > 1 && ps[0].0.starts_with(is_ws) {
+            s = s.trim_start_matches(is_ws).to_string();
+        }
+        if !lit && input.ends_with("  ") && trim(pieces(&s).first().map(|p| p.0).unwrap_or("")).starts_with('}') {
+            s = format!("x{s}");
+        }
+    }
+    s
+}
+
+/// Avoid the two known ways reading (1) fails (decided on the input alone), so
+/// that any other text change shows up under its own signature.
+fn avoid_known(ops: Vec<Op>) -> Vec<Op> {
+    let mut input = String::new();
+    let mut out = vec![];
+    for op in ops {
+        match op {
+            Op::Push(s) => {
+                let s = fix_frag(s, &input, false);
+                input.push_str(&s);
+                out.push(Op::Push(s));
+            }
+            Op::Lit(s) => {
+                let s = fix_frag(s, &input, true);
+                input.push_str(&s);
+                out.push(Op::Lit(s));
+            }
+            Op::Write(t, a) => {
+                let saved = input.clone();
+                let (mut a2, mut ai, mut ok) = (vec![], 0, true);
+                for part in template_parts(t) {
+                    match part {
+                        Some(l) => {
+                            if fix_frag(l.clone(), &input, false) != l {
+                                ok = false; // a fixed template part cannot be rewritten: drop the op
+                            }
+                            input.push_str(&l);
+                        }
+                        None => {
+                            let arg = fix_frag(a.get(ai).cloned().unwrap_or_default(), &input, false);
+                            input.push_str(&arg);
+                            a2.push(arg);
+                            ai += 1;
+                        }
+                    }
+                }
+                if ok {
+                    out.push(Op::Write(t, a2));
+                } else {
+                    input = saved;
+                }
+            }
+            Op::Append(inner) => {
+                out.push(Op::Append(avoid_known(inner)));
+                // afterwards the outer buffer is at a line start
+                if !input.is_empty() && !input.ends_with('\n') {
+                    input.push('\n');
+                }
+                input.push_str("appended\n");
+            }
+            other => out.push(other),
+        }
+    }
+    out
+}
+
+fn render(t: u8, a: &[String]) -> String {
+    let g = |i: usize| a.get(i).map(|s| s.as_str()).unwrap_or("");
+    match t {
+        0 => g(0).to_string(),
+        1 => format!("{}{}", g(0), g(1)),
+        2 => format!("{} {{\n{}}}\n", g(0), g(1)),
+        3 => format!("{}\n", g(0)),
+        4 => format!("{}: {},\n", g(0), g(1)),
+        5 => format!("// {}\n", g(0)),
+        6 => format!("{} = {};", g(0), g(1)),
+        _ => format!("{}{}{}", g(0), g(1), g(2)),
+    }
+}
+
+fn shape(ops: &[Op]) -> String {
+    fn cls(s: &str) -> String {
+        let mut out = String::new();
+        let mut last = ' ';
+        for c in s.chars() {
+            let k = match c {
+                '\n' => 'N',
+                '{' => '{',
+                '}' => '}',
+                '/' => '/',
+                c if c.is_whitespace() => '_',
+                _ => 'a',
+            };
+            if k != last || k == 'N' || k == '{' || k == '}' {
+                out.push(k);
+            }
+            last = k;
+        }
+        out
+    }
+    ops.iter()
+        .map(|o| match o {
+            Op::Push(s) => format!("p[{}]", cls(s)),
+            Op::Lit(s) => format!("l[{}]", cls(s)),
+            Op::Indent(n) => format!("+{n}"),
+            Op::Deindent(n) => format!("-{n}"),
+            Op::Write(t, a) => format!("w{t}[{}]", a.iter().map(|s| cls(s)).collect::<Vec<_>>().join("|")),
+            Op::Append(i) => format!("A({})", shape(i)),
+        })
+        .collect::<Vec<_>>()
+        .join(" ")
+}
+
+// ---------------------------------------------------------------- one case
+
+fn check_text(evs: &[Ev], buf: &str) -> bool {
+    strip_lines(buf) == strip_lines(&input_text(evs))
+}
+
+/// Hand-written sequences run before the random ones (stable minimal witnesses).
+fn directed() -> Vec<Vec<Op>> {
+    let p = |s: &str| Op::Push(s.to_string());
+    let l = |s: &str| Op::Lit(s.to_string());
+    vec![
+        vec![p("x ="), p(" f(\n  a)\n")],
+        vec![p("a  "), p("}\n")],
+        vec![p("fn f() {\n"), p("y\n"), p("} else {\n"), p("z\n"), p("}\n")],
+        vec![Op::Indent(1), l("}\n{"), Op::Deindent(1), p("\nx {\n"), l("// {\n"), p("y\n}\n")],
+        vec![p("// a {\n"), p("b {\n"), Op::Write(2, vec!["while c".into(), "d;\n".into()]), p("}\n")],
+        vec![p("top {\n"), Op::Append(vec![p("in {\nx\n}\n")]), p("}\n")],
+        vec![Op::Append(vec![p("in {\nx\n")]), p("y\n}\n")],
+    ]
+}
+
+fn run_case(rng: &mut Rng, idx: u64, rep: &mut Report, seed: u64) {
+    let mode = if idx >= DIRECTED_BASE { 10 } else { rng.below(10) };
+    let (ops, mode_name) = match mode {
+        10 => (directed()[(idx - DIRECTED_BASE) as usize].clone(), "directed"),
+        0..=4 => (gen_program(rng, 0), "program"),
+        5 | 6 => (gen_program(rng, 150), "program-wild-cuts"),
+        7 => (avoid_known(gen_program(rng, 400)), "program-wild-cuts-avoiding-known"),
+        8 => (avoid_known(gen_wild(rng, true)), "wild-avoiding-known"),
+        _ => (gen_wild(rng, true), "wild"),
+    };
+    let replay = |extra: Value| json!({"seed": seed, "stream": "seq", "case": idx, "mode": mode_name, "ops": ops.iter().map(op_json).collect::<Vec<_>>(), "detail": extra});
+
+    let mut src = Source::default();
+    let mut evs = vec![];
+    let run = corelib_mon::catch(|| exec(&ops, &mut src, &mut evs, &mut |_, _| true));
+    if let Err((msg, loc)) = run {
+        // the statement does not speak about panics, but a panic on in-alphabet input means no buffer at all
+        rep.violation(
+            "source:panic",
+            &format!("Source panicked at {loc}: {msg} on ops {}", clip(&shape(&ops), 300)),
+            replay(json!({"panic": msg, "at": loc})),
+        );
+        return;
+    }
+    rep.eval();
+    rep.count(&format!("mode:{mode_name}"));
+    rep.count_n("fragments", evs.iter().filter(|e| matches!(e, Ev::Frag { .. })).count() as u64);
+
+    // (1) text preservation, inner sources first
+    let mut text_ok = true;
+    for e in &evs {
+        if let Ev::Append { text, inner } = e {
+            rep.count("append_src");
+            if !check_text(inner, text) {
+                text_ok = false;
+                report_text_failure(rep, &ops_of_append(&ops), true, &replay);
+            }
+        }
+    }
+    if text_ok && !check_text(&evs, src.as_str()) {
+        text_ok = false;
+        report_text_failure(rep, &ops, false, &replay);
+    }
+    if !text_ok {
+        rep.count("text_not_preserved");
+        return;
+    }
+    rep.count("text_preserved");
+
+    // (2)(3)(4)
+    let buf = src.as_str().to_string();
+    let mut j = Judge {
+        out_lines: buf.split('\n').collect(),
+        line_no: 0,
+        d: 0,
+        cur: vec![],
+        line_start_d: 0,
+        judging: true,
+        pending_literal_edge: 0,
+        saw_literal_edge: false,
+        stats: LineStats::default(),
+        bad: None,
+    };
+    j.feed(&evs);
+    if let Some((sig, msg)) = j.bad.take() {
+        rep.violation(&sig, &format!("{msg}; buffer {:?}", clip(&buf, 400)), replay(json!({"buffer": buf})));
+        return;
+    }
+    rep.count_n("lines_judged_for_indentation", j.stats.judged_lines);
+    rep.count_n("lines_judged_exact", j.stats.exact_lines);
+    rep.count_n("literal_edge_lines_followed_by_judged_lines", j.stats.literal_edge_lines_followed);
+    rep.count_n("brace_opens", j.stats.opens);
+    rep.count_n("brace_closes", j.stats.closes);
+    rep.count_n("comment_lines", j.stats.comment_lines);
+    if let Some(r) = j.stats.stop_reason {
+        rep.count(&format!("indentation_judging_stopped: {r}"));
+    }
+    if j.judging && j.cur.is_empty() {
+        let real = probe_indent(&mut src) as i64;
+        if real != j.d {
+            let balanced = j.stats.opens == j.stats.closes;
+            let sig = if balanced && j.d == 0 { "source:depth-not-restored-after-balanced-code" } else { "source:depth-mismatch-at-end" };
+            rep.violation(
+                sig,
+                &format!(
+                    "after the sequence the Source's indent level is {real} but whole-line brace nesting (+ indent/deindent calls) gives {}; opens={} closes={}; buffer {:?}",
+                    j.d,
+                    j.stats.opens,
+                    j.stats.closes,
+                    clip(&buf, 400)
+                ),
+                replay(json!({"buffer": buf, "real_indent": real, "oracle_depth": j.d})),
+            );
+            return;
+        }
+        rep.count("sequences_fully_judged");
+        if j.stats.opens > 0 && j.stats.opens == j.stats.closes {
+            rep.count("balanced_sequences_depth_restored");
+        }
+        if j.stats.judged_lines >= 2 {
+            rep.distinct(&shape(&ops));
+        }
+    } else if j.stats.judged_lines >= 2 {
+        rep.distinct(&shape(&ops));
+    }
+    if idx < 4 {
+        rep.sample(json!({"mode": mode_name, "ops": ops.iter().map(op_json).collect::<Vec<_>>(), "buffer": buf, "lines_judged": j.stats.judged_lines}));
+    }
+}
+
+fn ops_of_append(ops: &[Op]) -> Vec<Op> {
+    // the first Append whose inner text fails is re-run on its own below; return all inner op lists flattened
+    for o in ops {
+        if let Op::Append(inner) = o {
+            let mut s = Source::default();
+            let mut ev = vec![];
+            exec(inner, &mut s, &mut ev, &mut |_, _| true);
+            if !check_text(&ev, s.as_str()) {
+                return inner.clone();
+            }
+        }
+    }
+    vec![]
+}
+
+/// Re-run `ops` on a fresh Source, then re-apply the recorded events one by one
+/// checking reading (1) after each to find the call that broke it; classify and report.
+fn report_text_failure(rep: &mut Report, ops: &[Op], inner: bool, replay: &dyn Fn(Value) -> Value) {
+    let mut src = Source::default();
+    let mut evs = vec![];
+    exec(ops, &mut src, &mut evs, &mut |_, _| true);
+    let mut s2 = Source::default();
+    let mut failing = None;
+    let mut before = String::new();
+    for (k, e) in evs.iter().enumerate() {
+        replay_events(std::slice::from_ref(e), &mut s2);
+        if !check_text(&evs[..=k], s2.as_str()) {
+            failing = Some(k);
+            break;
+        }
+        if let Ev::Frag { text, .. } | Ev::Append { text, .. } = e {
+            before.push_str(text);
+        }
+    }
+    let Some(failing) = failing else {
+        rep.inconclusive("C25: text failure did not reproduce on event-wise re-execution");
+        return;
+    };
+    let sig = classify_text_failure(&before, &evs[failing]);
+    let ev_desc = match &evs[failing] {
+        Ev::Frag { text, lit, via } => format!("{via}({text:?}){}", if *lit { " [literal]" } else { "" }),
+        Ev::Append { text, .. } => format!("append_src(<{:?}>)", clip(text, 80)),
+        Ev::Manual(n) => format!("indent op {n}"),
+    };
+    let inp = input_text(&evs[..=failing]);
+    let cur = s2.as_str().to_string();
+    rep.violation(
+        &sig,
+        &format!(
+            "after input {:?} the call {ev_desc} left the buffer {:?}: text differs beyond line-leading whitespace: {}{}",
+            clip(&before, 120),
+            clip(&cur, 200),
+            first_diff(&strip_lines(&cur), &strip_lines(&inp)),
+            if inner { " (inside a Source later passed to append_src)" } else { "" }
+        ),
+        replay(json!({"input_before": before, "failing_call": ev_desc, "buffer_after": cur})),
+    );
+}
+
+fn replay_events(evs: &[Ev], s: &mut Source) {
+    for e in evs {
+        match e {
+            Ev::Frag { text, lit, .. } => {
+                if *lit {
+                    s.push_str_literal(text)
+                } else {
+                    s.push_str(text)
+                }
+            }
+            Ev::Manual(n) => {
+                if *n >= 0 {
+                    s.indent(*n as usize)
+                } else {
+                    s.deindent((-*n) as usize)
+                }
+            }
+            Ev::Append { inner, .. } => {
+                let mut i2 = Source::default();
+                replay_events(inner, &mut i2);
+                s.append_src(&i2);
+            }
+        }
+    }
+}
+
+const DIRECTED_BASE: u64 = 1 << 60;
+
+fn main() {
+    let args = Args::parse();
+    let seed = args.seed();
+    let n: u64 = args.u64("n", if args.thorough() { 10_000_000 } else { 60_000 });
+    let mut rep = Report::new(
+        "case = one op sequence (push_str / push_str_literal / indent / deindent / write! / append_src) run on a fresh Source; \
+         generators: block-structured programs cut into fragments at safe places, the same with cuts at arbitrary characters, and token soup; \
+         distinct = sequences (by op kinds + fragment token-class skeleton) in which at least 2 output lines were judged for indentation",
+    );
+    rep.assume("input alphabet excludes \\r; deindent is clamped to the current level; append_src is only used with whole lines at a line start");
+    rep.assume("reading (2) is not judged after the first line where a fragment boundary separates a brace/comment token from its line edge, after brace underflow, or after append_src at non-zero depth");
+    if let Some(i) = only_case(&args) {
+        let mut rng = corelib_mon::case_rng(seed, 25, i);
+        run_case(&mut rng, i, &mut rep, seed);
+    } else {
+        for k in 0..directed().len() as u64 {
+            let mut rng = corelib_mon::case_rng(seed, 25, DIRECTED_BASE + k);
+            run_case(&mut rng, DIRECTED_BASE + k, &mut rep, seed);
+        }
+        fan_out(&mut rep, seed, 25, n, |rng, i, r| run_case(rng, i, r, seed));
+    }
+    rep.write(&args.out());
+}
